@@ -162,6 +162,7 @@ def run_case(case, res):
     res["programs"] += 1
     nontrivial = False
     layout_classes = []
+    matched_operands = set()
     for si, (ptr, pat) in enumerate(zip(reg.operands, reg.stride_patterns.data)):
         ub = [x.data for x in pat.upper_bounds.data]
         ts = [x.data for x in pat.temporal_strides.data]
@@ -178,7 +179,9 @@ def run_case(case, res):
         if not cands:
             R.bump(res, "streams_unmatched")
             continue
-        oi = cands[0]
+        # a buffer passed for several operands: the k-th stream on it belongs to the k-th of those operands
+        oi = next((i for i in cands if i not in matched_operands), cands[0])
+        matched_operands.add(oi)
         t = memref_val.type
         try:
             ref = from_memref_type(t)
@@ -348,8 +351,12 @@ def run_shard(seed, shard, n_cases, tier):
         elif r < 0.7:
             g = gen_op(rng, layouts=("none", "strided", "tsl", "tsl_good"))
             tiled = rng.choice(["true", "false", "off"])
-        elif r < 0.9:
+        elif r < 0.88:
             g = gen_op(rng, layouts=("tsl_good",))
+            tiled = "off"
+        elif r < 0.94:
+            # one buffer passed for both matmul inputs (P * P^T), layouts given: both operands are the same SSA value all the way
+            g = gen_op(rng, layouts=rng.choice([("tsl_good",), ("none",)]), kinds=["gemmx_matmul"], gram=True)
             tiled = "off"
         else:
             g = gen_op(rng, layouts=("tsl",))
